@@ -47,7 +47,7 @@ def cases(tier, seed):
         d = gen.random_mesh(rng, mf)
         yield {"kind": "mesh", "mesh": d, "order": int(rng.integers(0, len(ORDERS))),
                "supplied": bool(rng.random() < 0.3), "sseed": int(rng.integers(0, 10**6)),
-               "source": "mpas" if i % 5 == 4 else "topology", "layout": ux.LAYOUTS[int(rng.integers(0, 4))] if rng.random() < 0.4 else "C",
+               "source": "mpas" if i % 5 == 4 else ("ugrid_tables" if i % 5 == 3 else "topology"), "layout": ux.LAYOUTS[int(rng.integers(0, 4))] if rng.random() < 0.4 else "C",
                "orphans": int(rng.choice([0, 0, 0, 1, 3])), "touch": [TOUCH[int(j)] for j in rng.choice(len(TOUCH), size=int(rng.integers(0, 4)), replace=False)]}
     from .. import samplefiles
 
@@ -208,6 +208,9 @@ def run_case(ctx, case):
         for i, f in enumerate(m.faces):
             fe[i, : len(f)] = [eid[e] for e in ref.face_edges(f)]
         extra = {"edge_node_connectivity": en, "face_edge_connectivity": fe}
+        if rng.random() < 0.5:
+            del extra["face_edge_connectivity"]  # the source ships its edges only: face_edge is derived in the source's edge numbering
+            ctx.observe("supplied_edge_nodes_only")
     source = case.get("source", "topology")
     if source == "mpas" and ref.is_manifold(m.faces):
         # an MPAS source ships every incidence table itself (1-based, padded by zeros or by repeating the last entry)
@@ -222,6 +225,20 @@ def run_case(ctx, case):
         extra = {"mpas": info["dial"]["padding"]}
         ctx.observe("mesh_from_mpas_source_padding_" + info["dial"]["padding"])
         sig = {"supplied": "mpas", "isolated": ft["isolated"], "padding": info["dial"]["padding"]}
+    elif source == "ugrid_tables" and ref.is_manifold(m.faces) and not case.get("orphans"):
+        # a UGRID source that ships its edge->node, edge->face and node->face tables in its own integer type, fill value and index base,
+        # the edge->face table possibly stored with the edge dimension last (FESOM-style files)
+        from .. import dialects
+
+        ds, info = dialects.ugrid_dataset(m, np.random.default_rng(case["sseed"]), force={"edge_table": True, "more_tables": True, "coord_dtype": "float64", "transposed": False})
+        try:
+            g = U.open_grid(ds)
+        except Exception as e:
+            ctx.check("no_exception", False, {"stage": "open_ugrid_tables", "exc": core.exc_sig(e)}, {"exc": repr(e), "mesh": case["mesh"], "dial": {k: str(v) for k, v in info["dial"].items()}})
+            return
+        extra = {"ugrid_tables": True}
+        ctx.observe("mesh_from_ugrid_source_with_incidence_tables" + ("_edge_last" if info["dial"].get("edge_face_edge_last") else ""))
+        sig = {"supplied": "ugrid_tables", "isolated": ft["isolated"], "edge_face_edge_last": bool(info["dial"].get("edge_face_edge_last")), "names": info["dial"]["names"], "tables_start_index": info["dial"].get("tables_start_index")}
     else:
         conv = ux.CONVENTIONS[case["sseed"] % len(ux.CONVENTIONS)]
         g = ux.grid_from_mesh(m, extra=extra, layout=case.get("layout", "C"), convention=conv)
